@@ -54,7 +54,7 @@ type C11Case struct {
 
 func genC11(t *rapid.T) C11Case {
 	o := worldOpts()
-	w := gen.GenWorld(t, o)
+	w := gen.AnyWorld(t, o)
 	c := C11Case{World: w, Query: rapid.Bool().Draw(t, "query"), Engine: []string{"v1", "v2"}[rapid.IntRange(0, 1).Draw(t, "engine")],
 		ShortIt: rapid.IntRange(0, 2).Draw(t, "shortIter") == 0}
 	n := rapid.IntRange(1, 4).Draw(t, "rounds")
